@@ -9,6 +9,7 @@ package main
 import (
 	"fmt"
 	"strings"
+	"unicode/utf8"
 
 	"github.com/robertkrimen/otto/parser"
 	. "ottoh/lib"
@@ -181,4 +182,63 @@ func (h *harness) literalStream() {
 		}
 		h.addLit("number", base, c, n, must)
 	}
+}
+
+// parser.ParseFunction (the Function constructor's parser): parameters and body that try to close
+// the wrapper, truncated bodies, malformed literals — no panic, a function literal or an error,
+// and text that is not a FormalParameterList / FunctionBody is rejected (ES5 15.3.2.1)
+func (h *harness) parseFunctionStream() {
+	type pf struct {
+		params, body string
+		legal        bool
+	}
+	cases := []pf{
+		{"", "", true}, {"a, b", "return a + b", true}, {"a", "if (a) return 1; else return 2", true}, {"", "// comment", true}, {"a /* c */, b", "return /* c\n */ 1", true},
+		{"", "}),(function(){", false}, {"a", "}),(function(){", false}, {"a){}),(function(b", "", false}, {"", "})", false}, {"", "}", false}, {"", "{", false},
+		{"", "return 1 })(", false}, {"){", "", false}, {",a", "", false}, {"a b", "", false}, {"1", "", false}, {"a", "return '\\x4'", false},
+		{"", "x = /(?/", false}, {"", "break", false}, {"", "L: L: ;", false}, {"", "return", true}, {"", "var \\u0076ar", false}, {"", "switch(1){", false},
+		{"a /*", "*/ ) { return a", false}, {"", "/*", false}, {"", "'", false}, {"", "\xff", false}, {"class", "", false},
+	}
+	flags := []bool{true, true, true}
+	first, offender := "", ""
+	for _, c := range cases {
+		var fnOK, errd bool
+		pan := guardAny(func() {
+			fn, err := parser.ParseFunction(c.params, c.body)
+			errd = err != nil
+			fnOK = fn != nil
+			if fn != nil {
+				_ = fn.Idx0()
+				_ = fn.Idx1()
+			}
+		})
+		what := fmt.Sprintf("ParseFunction(%q, %q)", c.params, c.body)
+		if pan != nil && flags[0] {
+			flags[0], first = false, what+fmt.Sprintf(" panics: %v", pan)
+		}
+		if pan == nil && fnOK == errd && flags[1] {
+			flags[1] = false
+			if first == "" {
+				first = what + " returns neither (or both) a function and an error"
+			}
+		}
+		lit := "new Function(" + JSStr(Units(c.params)) + ", " + JSStr(Units(c.body)) + ")"
+		v, _ := h.run(`(function(){ try { ` + lit + `; return "compiled" } catch (e) { return "threw" } })()`)
+		if (strings.HasPrefix(v, "!") || (v == "compiled") != c.legal) && utf8.ValidString(c.params+c.body) && flags[2] {
+			flags[2] = false
+			if first == "" {
+				first = lit + " -> " + v
+			}
+		}
+		if pan == nil && !errd != c.legal && offender == "" {
+			offender = fmt.Sprintf(" %s accepted=%v, expected %v", what, !errd, c.legal)
+		}
+	}
+	fs := make([]string, len(flags))
+	for i, f := range flags {
+		fs[i] = Cbool(f)
+	}
+	h.env.Add("CRobust "+Clist(fs), fmt.Sprintf("parse-function %d parameter/body pairs: no panic, function xor error, Function constructor agrees, flags=%v %s", len(cases), flags, first), "parse-function", true)
+	h.env.Add(fmt.Sprintf("CPinned 50 false false %s", Cbool(offender != "")),
+		fmt.Sprintf("parse-function verdicts (wrapper-closing text must be rejected, legal pairs accepted)%s", offender), "parse-function", true)
 }
